@@ -150,7 +150,7 @@ func checkProgram(ctx context.Context, h *harness.H, layer string, cn int, r *pr
 		} else {
 			h.Seen("reject_reasons", b.stage.String()+":"+normMsg(b.diag))
 			if h.SeenCount("reject_reasons") <= 12 {
-				fmt.Printf("NOTE: rejected (%s) %s | %s\n", b.stage, firstLine(b.diag), oneLine(src))
+				fmt.Printf("NOTE: rejected (%s) %s | %s\n", b.stage, firstLine(b.diag), head(oneLine(src), 400))
 			}
 		}
 		if strings.TrimSpace(b.diag) == "" {
